@@ -26,29 +26,32 @@ def check_sqrt_zero_cases(build):
     def body(I, h):
         n, d = FE.sym('Fq', 'num'), FE.sym('Fq', 'den')
         h.locals['n'] = n; h.locals['d'] = d
-        r = I.call_item(it, [Ref(h, 'n', []), Ref(h, 'd', [])])
-        return r
+        try: r = ('ret', I.call_item(it, [Ref(h, 'n', []), Ref(h, 'd', [])]))
+        except PathEnd: r = ('core', None)
+        # the specification's case split, on the same oracle (forces a decision on both operands on every path)
+        nz = models.fe_is_zero(I, n); dz = models.fe_is_zero(I, d)
+        return r, nz, dz
     try: recs = run_paths(items, M, body)
     except Exception as e:
         return [Ob(f'{build}:sqrt_ratio zero cases', 'inconclusive', f'{type(e).__name__}: {e} :: ' + ' <- '.join(getattr(e, 'mir_stack', [])[:3]), 0, 'mirsym/POLY')]
     seen = set()
     for r in recs:
-        keys = r['ctx'].pathkeys
-        nz = keys.get("zero:[((('num', 1),), 1)]"); dz = keys.get("zero:[((('den', 1),), 1)]")
-        tag = f'num{"=" if nz else "!="}0' + ('' if dz is None else f', den{"=" if dz else "!="}0')
+        if 'panic' in r:
+            obs.append(Ob(f'{build}:sqrt_ratio_zeta zero cases', 'violated', 'panics: ' + r['panic'], 0, 'mirsym path enumeration (POLY)', {'path': [str(c) for c in r['path']]}, {'kind': 'sqrt-zero'})); continue
+        (kind, val), nz, dz = r['result']
+        tag = f'num{"=" if nz else "!="}0, den{"=" if dz else "!="}0'
         name = f'{build}:sqrt_ratio_zeta on {tag}'
-        if 'panic' in r: obs.append(Ob(name, 'violated', 'panics: ' + r['panic'], 0, 'mirsym path enumeration (POLY)', None, {'kind': 'sqrt-zero'})); continue
-        if 'pruned' in r:
-            if nz or dz: obs.append(Ob(name, 'violated', 'zero operand reaches the nonzero core (no early return)', 0, 'mirsym path enumeration (POLY)', None, {'kind': 'sqrt-zero'}))
+        if kind == 'core':
+            if nz or dz: obs.append(Ob(name, 'violated', 'a zero operand reaches the nonzero core (no early return)', 0, 'mirsym path enumeration (POLY)', None, {'kind': 'sqrt-zero'}))
             else: seen.add('core'); obs.append(Ob(name, 'proved', 'reaches the nonzero core', 0, 'mirsym path enumeration (POLY)'))
             continue
-        flag, y = r['result'].fields
+        flag, y = val.fields
         want = True if nz else (False if dz else None)
         yz = isinstance(y, FE) and (y.is_zero_poly() or (nz and y.key() == FE.sym('Fq', 'num').key()) or (dz and y.key() == FE.sym('Fq', 'den').key()))
         if want is None: obs.append(Ob(name, 'violated', 'early return on nonzero operands', 0, 'mirsym path enumeration (POLY)', None, {'kind': 'sqrt-zero'}))
-        elif flag is want and yz: seen.add(tag.split(',')[0] if nz else tag); obs.append(Ob(name, 'proved', f'returns ({want}, 0)', 0, 'mirsym path enumeration (POLY)'))
+        elif flag is want and yz: seen.add(tag); obs.append(Ob(name, 'proved', f'returns ({want}, 0)', 0, 'mirsym path enumeration (POLY)'))
         else: obs.append(Ob(name, 'violated', f'returns ({flag}, {y}) instead of ({want}, 0)', 0, 'mirsym path enumeration (POLY)', {'path': [str(c) for c in r['path']]}, {'kind': 'sqrt-zero'}))
-    if 'core' not in seen or len(obs) < 3: obs.append(Ob(f'{build}:sqrt_ratio zero-case path count', 'inconclusive', f'paths seen: {sorted(seen)}', 0, 'mirsym'))
+    if 'core' not in seen or len(obs) < 4: obs.append(Ob(f'{build}:sqrt_ratio zero-case path count', 'inconclusive', f'paths seen: {sorted(seen)}', 0, 'mirsym'))
     return obs
 
 # ============================================================================================== LOG domain
@@ -229,13 +232,14 @@ class Harness:
     def __init__(s, build, timeout_ms=120000):
         s.build = build; s.assume = []; s.obs = []; s.timeout = timeout_ms; s.nlook = 0; s.stage = 0
     def reset_path(s):
-        s.assume = []; s.nlook = 0; s.stage = 0
+        s.assume = []; s.nlook = 0; s.stage = 0; s.path_ref = None
     def prove(s, name, goal, sample=None, kind='sqrt'):
         nm0 = f'{s.build}:{name}'
         for o in s.obs:
             if o.name == nm0 and o.status == 'proved' and getattr(o, '_goal', None) == goal.sexpr() and getattr(o, '_nass', -1) == len(s.assume): return True
         sv = z3.Solver(); sv.set('timeout', s.timeout)
         for a in s.assume: sv.add(a)
+        for a in getattr(s, 'path_ref', None) or (): sv.add(a)
         sv.add(z3.Not(goal))
         t0 = time.time(); r = sv.check(); dt = time.time() - t0
         nm = f'{s.build}:{name}'
@@ -362,6 +366,12 @@ def final_obligations(H, flag, res, en, ed, tag=''):
     """flag <=> num/den is a square  (<=> e_n - e_d even, H has odd order);  res^2 * den = num  or  zeta * num"""
     if isinstance(res, LZero):
         H.obs.append(Ob(f'{H.build}:result on nonzero operands', 'violated', 'returns 0', 0, 'mirsym/LOG', None, {'kind': 'sqrt', 'build': H.build})); return
+    # vacuity guard: the assumptions accumulated on this path (stage invariants, path condition) are satisfiable
+    sv = z3.Solver(); sv.set('timeout', 60000)
+    for a in H.assume: sv.add(a)
+    for a in getattr(H, 'path_ref', None) or (): sv.add(a)
+    rv = sv.check()
+    H.obs.append(Ob(f'{H.build}:vacuity guard: stage invariants and path condition are jointly satisfiable' + tag, 'proved' if rv == z3.sat else 'inconclusive', str(rv), 0, 'z3 QF_BV (sat witness)'))
     sq = z3.Extract(0, 0, en - ed) == 0
     fl = flag if not isinstance(flag, bool) else z3.BoolVal(flag)
     H.prove('flag is true exactly when num/den is a square (e_n - e_d even)' + tag, fl == sq)
@@ -386,3 +396,105 @@ def odd_part_ob(H, lhs, rhs_sq, rhs_ns, sq, tag=''):
     if r == z3.unsat: return Ob(nm, 'proved', f'matches the {"square" if ok_sq else "non-square"} case, which is the case of this path', 0, 'exact linear forms mod M + z3', {'lhs': [str(x)[:30] for x in lhs.h]})
     if r == z3.sat: return Ob(nm, 'violated', f'odd part is that of the {"square" if ok_sq else "non-square"} case on a path where the ratio is {"not " if ok_sq else ""}a square', 0, 'exact linear forms mod M + z3', None, {'kind': 'sqrt', 'build': H.build})
     return Ob(nm, 'inconclusive', 'z3 unknown', 0, 'z3')
+
+def check_sqrt_min_log():
+    """constant-time Tonelli-Shanks of the minimal backend, all nonzero (num, den), in exponent coordinates"""
+    from .curve import items_for
+    items = items_for('min'); it = sqrt_item(items, 'min')
+    H = Harness('min', 300000 if common.tier() == 'quick' else 3600000)
+    en, ed = z3.BitVec('en', N2), z3.BitVec('ed', N2)
+    M = models.base_models()
+    M['fns'] = log_models(H) + [m for m in M['fns'] if 'sqrt_ratio_zeta' not in m[0]]
+    st = {}
+    def hook_b(I, fr, loc, val):
+        """cut at `b = t` (before the loop and at the end of every iteration): Tonelli-Shanks invariant for the next loop index i:
+             e(t) = 0 mod 2^(48-i),   2 e(z) = e(x) + e(t),   odd parts: h(t) = 0, 2 h(z) = h(x)"""
+        dbg = fr.item.debug
+        tl, zl = dbg['t'][0], dbg['z'][0]
+        if val is not fr.locals.get(tl) or not isinstance(val, LE): return val
+        k = st.get('k', 0); st['k'] = k + 1
+        i_next = N2 - k                      # loop index of the iteration that follows this cut (47, 46, ..., 2, then 1 = loop done)
+        x = L(I, fr.locals['_1']); z = fr.locals[zl]; t = val
+        if not isinstance(z, LE): return val
+        low = 48 - i_next
+        def inv(ze, te):
+            c = [2 * ze == bv(x.e) + te]
+            if low > 0: c.append(z3.Extract(min(low, N2) - 1, 0, te) == 0)
+            return z3.And(c)
+        tag = st.get('tag', '')
+        okh = t.h == (0, 0, 0) and tuple((2 * a) % MODD for a in z.h) == x.h
+        if not okh:
+            H.obs.append(Ob(f'min:our_sqrt cut {k}: odd parts h(t) = 0 and 2 h(z) = h(x){tag}', 'violated', f'h(t)={t.h} h(z)={z.h} h(x)={x.h}', 0, 'exact linear forms mod M', None, {'kind': 'sqrt', 'build': 'min'}))
+            raise PathEnd('odd part invariant')
+        H.prove(f'our_sqrt cut {k} (next loop index {i_next}): e(t) = 0 mod 2^{min(low, N2)} and 2 e(z) = e(x) + e(t){tag}', inv(bv(z.e), bv(t.e)), {'cut': k})
+        zs, ts = z3.BitVec(f'z{k}{st.get("n", 0)}', N2), z3.BitVec(f't{k}{st.get("n", 0)}', N2)
+        H.assume = [a for a in H.assume if not getattr(a, '_inv', False)]
+        a = inv(zs, ts); H.assume.append(a); st['last'] = a
+        fr.locals[zl] = LE(zs, z.h); nt = LE(ts, t.h); fr.locals[tl] = nt
+        return nt
+    def body(I, h):
+        H.reset_path(); st.clear()
+        H.path_ref = I.ctx.path
+        I.assign_hooks = {(r'our_sqrt$', 'b'): hook_b}
+        I.ctx.assert_prover = lambda c: H.prove('bounds/overflow assertion', c, {'assert': str(c)[:120]}) or (_ for _ in ()).throw(PathEnd('assertion not proved'))
+        h.locals['n'] = LE(en, (1, 0, 0)); h.locals['d'] = LE(ed, (0, 1, 0))
+        r = I.call_item(it, [Ref(h, 'n', []), Ref(h, 'd', [])])
+        return r, list(H.assume)
+    t0 = time.time()
+    try: recs = run_paths(items, M, body)
+    except Exception as e:
+        return H.obs + [Ob('min:non_arkworks_sqrt_ratio_zeta LOG-domain run', 'inconclusive', f'{type(e).__name__}: {e} :: ' + ' <- '.join(getattr(e, 'mir_stack', [])[:3]), 0, 'mirsym/LOG')]
+    done = [r for r in recs if 'result' in r]
+    for r in recs:
+        if 'panic' in r: H.obs.append(Ob('min:non_arkworks_sqrt_ratio_zeta panics on some path', 'violated', r['panic'] + ' on path ' + str([str(c)[:80] for c in r['path']]), 0, 'mirsym/LOG', None, {'kind': 'sqrt', 'build': 'min'}))
+    for d_ in done:
+        resv, assume = d_['result']
+        flag, res = resv.fields
+        res = L(d_['interp'], res)
+        H.assume = list(assume); H.path_ref = list(d_['path'])
+        final_obligations(H, flag, res, en, ed, tag=' [path ' + ''.join('1' if x else '0' for x in d_['decisions']) + ']')
+    if len(done) < 2 and not any(o.status == 'violated' for o in H.obs): H.obs.append(Ob('min:sqrt path count', 'inconclusive', f'{len(done)} completed paths (expected the square and the non-square branch)', 0, 'mirsym/LOG'))
+    return H.obs
+
+def check_legendre():
+    """Field::legendre of the three fields (arkworks build): Zero for 0, otherwise QuadraticResidue exactly when self^((p-1)/2) = 1
+    (Euler's criterion; the exponent constant is the real MODULUS_MINUS_ONE_DIV_TWO evaluated from the MIR)"""
+    from .curve import items_for
+    items = items_for('ark'); obs = []
+    for F in ('Fq', 'Fr', 'Fp'):
+        f = F.lower(); p = FIELDS[F]
+        try: it = mirsym.find_item_hdr(items, rf'^fields::{f}::arkworks::.*::legendre$', r'Field for')
+        except Unsupported as e: obs.append(Ob(f'ark:{F}::legendre', 'inconclusive', str(e), 0, 'mirsym')); continue
+        rec = {}
+        def m_pow(I, fr, fn, a):
+            x = models.D(I, a[0]); e = models.D(I, a[1])
+            if isinstance(e, (Ref, SliceRef)): e = I.deref(e)
+            l = e.fields[0] if isinstance(e, Agg) else e
+            rec['exp'] = models.limbs_to_int(l); rec['base'] = x
+            if models.fe_is_zero(I, x): return FE.const(F, 0)
+            return FE.sym(F, 'euler_power')
+        M = models.base_models(extra_fns=[(rf'^<fields::{f}::u64::wrapper::{F} as ark_ff::Field>::pow::', m_pow)])
+        def body(I, h):
+            x = FE.sym(F, 'x'); h.locals['x'] = x
+            r = I.call_item(it, [Ref(h, 'x', [])])
+            models.fe_is_zero(I, x)
+            return r
+        name = f'ark:{F}::legendre follows Euler\'s criterion'
+        try: recs = run_paths(items, M, body)
+        except Exception as e:
+            obs.append(Ob(name, 'inconclusive', f'{type(e).__name__}: {e} :: ' + ' <- '.join(getattr(e, 'mir_stack', [])[:3]), 0, 'mirsym')); continue
+        bad = None
+        for r in recs:
+            if 'panic' in r: bad = 'panics: ' + r['panic']; break
+            keys = r['ctx'].pathkeys
+            zero = keys.get("zero:[((('x', 1),), 1)]")
+            one = None
+            for k, v in keys.items():
+                if 'euler_power' in k: one = v
+            v = r['result'].variant
+            want = 'LegendreSymbol::Zero' if zero else ('QuadraticResidue' if one else 'QuadraticNonResidue')
+            if not v.endswith(want.split('::')[-1]) or (not zero and (rec.get('exp') != (p - 1) // 2 or rec.get('base') is None or rec['base'].key() != FE.sym(F, 'x').key())):
+                bad = f'on path zero={zero} power_is_one={one}: returns {v}, exponent used {rec.get("exp")}'; break
+        if bad: obs.append(Ob(name, 'violated', bad, 0, 'mirsym path enumeration', None, {'kind': 'legendre', 'field': F, 'build': 'ark'}))
+        else: obs.append(Ob(name, 'proved', f'{len(recs)} paths; exponent (p-1)/2', 0, 'mirsym path enumeration', {'paths': len(recs)}))
+    return obs
